@@ -1,12 +1,15 @@
 package props
 
 import (
+	"bufio"
 	"bytes"
 	"encoding/binary"
 	"encoding/hex"
 	"errors"
 	"fmt"
 	"io"
+	"strings"
+	"testing/iotest"
 
 	proto "github.com/golang/protobuf/proto"
 	"github.com/golang/protobuf/ptypes/wrappers"
@@ -251,6 +254,61 @@ func (c *chunkReader) Read(p []byte) (int, error) {
 		return n, endErr
 	}
 	return n, nil
+}
+
+// stdReader is one of the reader types callers actually pass (the chunkReader above is ours): the functions under
+// test take an io.Reader and must not behave differently for a particular dynamic type.
+type stdReader struct {
+	name     string
+	r        io.Reader
+	consumed func() int // bytes taken from the data so far, net of what a buffering wrapper still holds; -1 = not observable
+}
+
+func stdReaders(data []byte) []stdReader {
+	mk := func(name string, wrap func(u *bytes.Reader) (io.Reader, func() int)) stdReader {
+		u := bytes.NewReader(data)
+		r, held := wrap(u)
+		return stdReader{name, r, func() int {
+			h := 0
+			if held != nil {
+				h = held()
+				if h < 0 {
+					return -1
+				}
+			}
+			return len(data) - u.Len() - h
+		}}
+	}
+	bufioOf := func(size int) func(u *bytes.Reader) (io.Reader, func() int) {
+		return func(u *bytes.Reader) (io.Reader, func() int) {
+			b := bufio.NewReaderSize(u, size)
+			return b, b.Buffered
+		}
+	}
+	unobservable := func() int { return -1 }
+	buf := bytes.NewBuffer(append([]byte(nil), data...))
+	strR := strings.NewReader(string(data))
+	secR := io.NewSectionReader(bytes.NewReader(data), 0, int64(len(data)))
+	return []stdReader{
+		mk("*bytes.Reader", func(u *bytes.Reader) (io.Reader, func() int) { return u, nil }),
+		{"*bytes.Buffer", buf, func() int { return len(data) - buf.Len() }},
+		{"*strings.Reader", strR, func() int { return len(data) - strR.Len() }},
+		mk("*bufio.Reader(16)", bufioOf(16)),
+		mk("*bufio.Reader(32)", bufioOf(32)),
+		mk("*bufio.Reader(4096)", bufioOf(4096)),
+		mk("*io.LimitedReader", func(u *bytes.Reader) (io.Reader, func() int) { return io.LimitReader(u, int64(len(data))+100), nil }),
+		{"*io.SectionReader", secR, func() int { p, _ := secR.Seek(0, io.SeekCurrent); return int(p) }},
+		mk("io.MultiReader", func(u *bytes.Reader) (io.Reader, func() int) {
+			return io.MultiReader(io.LimitReader(u, 7), io.LimitReader(u, 25), u), nil
+		}),
+		mk("iotest.OneByteReader", func(u *bytes.Reader) (io.Reader, func() int) { return iotest.OneByteReader(u), nil }),
+		mk("iotest.HalfReader", func(u *bytes.Reader) (io.Reader, func() int) { return iotest.HalfReader(u), nil }),
+		mk("iotest.DataErrReader", func(u *bytes.Reader) (io.Reader, func() int) { return iotest.DataErrReader(u), unobservable }),
+		mk("*bufio.ReadWriter", func(u *bytes.Reader) (io.Reader, func() int) {
+			b := bufio.NewReaderSize(u, 64)
+			return bufio.NewReadWriter(b, bufio.NewWriter(io.Discard)), b.Buffered
+		}),
+	}
 }
 
 // quotaWriter accepts exactly quota bytes in total and then fails with err. With transient set it
